@@ -113,7 +113,7 @@ def check_amount(case, ctx: Ctx):
 def amount_cases(draw, tier="quick"):
     d = draw(st.sampled_from([1, 1, 2, 3]))
     spec = draw(hgen.hist_spec(dims=(d,), dtypes=["int32", "int64", "float32", "float64"], max_bins=15 if d == 1 else 6, adaptive=draw(st.sampled_from([False, False, False, True])),
-                               gapped=None))
+                               gapped=None, narrow=True))  # narrow=True: also real gaps far below physt's allclose tolerance (the merge check is exact)
     if d > 1 and draw(st.integers(0, 3)) == 0:
         # put gaps on one axis of an N-D histogram
         j = draw(st.integers(0, d - 1))
@@ -201,7 +201,7 @@ def check_min_frequency(case, ctx: Ctx):
 @st.composite
 def min_frequency_cases(draw, tier="quick"):
     d = draw(st.sampled_from([1, 1, 2, 3]))
-    spec = draw(hgen.hist_spec(dims=(d,), dtypes=["int64", "float64", "int32"], max_bins=12 if d == 1 else 5, adaptive=False))
+    spec = draw(hgen.hist_spec(dims=(d,), dtypes=["int64", "float64", "int32"], max_bins=12 if d == 1 else 5, adaptive=False, narrow=True))
     return {"spec": spec, "threshold": draw(st.sampled_from(["zero", "min", "median", "median", "max", "double_max", "total", "half"])),
             "scale": draw(st.sampled_from([None, None, 0.5, 1.5, 3])), "axis": draw(st.integers(0, 2)), "inplace": draw(st.booleans()),
             "give_axis": draw(st.booleans())}
